@@ -64,8 +64,9 @@ def run_scenarios(
                     raise HarnessError(f"stateless search found {key} that the merged search missed: {_brief(sc)}")
         if per_scenario is not None:
             per_scenario(sc, res, acc)
-        if acc.counters.get("scenarios", 0) % 7 == 1 and res.terminals:
-            acc.sample({"scenario": _brief(sc), "states": res.states, "transitions": res.transitions, "terminal_states": res.terminals})
+        if acc.counters.get("scenarios", 0) % 7 == 1 and res.sample is not None:
+            acc.sample({"scenario": _brief(sc), "states": res.states, "transitions": res.transitions, "terminal_states": res.terminals,
+                        "one_explored_schedule": res.sample[0], "its_event_log": res.sample[1]})
     return acc
 
 
